@@ -621,3 +621,48 @@ def varid_partition_check(dump_uses):
             by_id.setdefault(vid, set()).add(vdecl)
             by_decl.setdefault(vdecl, set()).add(vid)
     return [(k, sorted(v)) for k, v in by_id.items() if len(v) > 1], [(k, sorted(v)) for k, v in by_decl.items() if len(v) > 1]
+
+
+# ------------------------------------------------------------------ overload sets (Scope::findFunction fragment)
+TYNAMES = ["short", "unsigned short", "int", "unsigned int", "long", "unsigned long", "long long", "unsigned long long",
+           "float", "double", "long double"]
+
+
+def gen_overloads(rng, has_best=None):
+    """-> (source, sigs [(param type codes, ndefault)], calls [(line, arg type codes)]): one overload set `ov`, each
+    overload defined on its own line (line = index + 1), then one caller per call; arguments are parameters of the caller"""
+    nf = rng.randint(2, 4)
+    arity = rng.randint(1, 3)
+    pool = rng.sample(range(11), rng.randint(3, 6))
+    sigs, seen = [], set()
+    for _ in range(nf):
+        k = arity if rng.random() < 0.8 else rng.randint(1, 3)
+        ps = tuple(rng.choice(pool) for _ in range(k))
+        nd = rng.randint(0, 1) if k > 1 and rng.random() < 0.25 else 0
+        if ps in seen:
+            continue
+        seen.add(ps)
+        sigs.append((list(ps), nd))
+    lines = []
+    for i, (ps, nd) in enumerate(sigs):
+        prm = ", ".join("%s p%d%s" % (TYNAMES[t], j, " = 0" if j >= len(ps) - nd else "") for j, t in enumerate(ps))
+        lines.append("int ov(%s) { return %d; }" % (prm, i))
+    cand = []
+    for c in range(8):
+        na = arity if rng.random() < 0.85 else rng.randint(1, 3)
+        cand.append([rng.choice(pool + list(range(11))) for _ in range(na)])
+    # keep the calls that have a best viable function per the specification (the others are ill-formed: ambiguous / no match)
+    keep = [at for at, ok in zip(cand, has_best(sigs, cand)) if ok][:5] if has_best else cand[:4]
+    calls = []
+    for c, at in enumerate(keep):
+        prm = ", ".join("%s a%d" % (TYNAMES[t], j) for j, t in enumerate(at))
+        lines.append("int c%d(%s) { return ov(%s); }" % (c, prm, ", ".join("a%d" % j for j in range(len(at)))))
+        calls.append((len(lines), at))
+    return "\n".join(lines) + "\n", sigs, calls
+
+
+def ff_case(sigs, args):
+    f = [str(len(sigs))]
+    for ps, nd in sigs:
+        f += [str(len(ps)), str(nd)] + [str(t) for t in ps]
+    return [x.encode() for x in f + [str(t) for t in args]]
